@@ -212,7 +212,10 @@ def s3(ctx, rep):
             "domain: duplicates are removed on un-cast values, so two initial points that cast to the same configuration are both "
             "kept and the same configuration is suggested twice")
     im = P.func("syne_tune.optimizer.schedulers.searchers.searcher._impute_default_config")
-    ok = any(isinstance(x, ast.Assign) and isinstance(x.value, ast.Call) and fn_name(x.value) == "_default_config_value" for x in walk_shallow(im.node))
+    src = im.params[0]
+    ok = any(isinstance(x, ast.Call) and fn_name(x) == "_default_config_value" for x in ast.walk(im.node)) and not any(
+        isinstance(x, ast.Subscript) and isinstance(x.ctx, ast.Load) and U(x.value) == src for x in ast.walk(im.node)) and not any(
+        isinstance(x, ast.Call) and fn_name(x) == "get" and U(x.func.value) == src for x in ast.walk(im.node))
     rep.put(ok, "S3", "agreement", "_impute_default_config takes given values through _default_config_value", im, None, "")
     ks = P.func("syne_tune.optimizer.schedulers.searchers.searcher._sorted_keys")
     ok = any(isinstance(x, ast.Call) and isinstance(x.func, ast.Name) and x.func.id == "sorted" for x in walk_shallow(ks.node))
@@ -236,7 +239,7 @@ def s4(ctx, rep):
     # the recorded configuration is the returned one
     call = [x for n in add for x in cfg.node_walk(n) if isinstance(x, ast.Call) and fn_name(x) == "add"][0]
     rets = [U(r.value) for r in returns_of(f)]
-    rep.put(rets == [U(argn(call, 0))], "S4", "agreement", "StochasticAndFilterDuplicatesSearcher.get_config records the configuration it returns", f, call, "")
+    rep.put(bool(rets) and set(rets) == {U(argn(call, 0))}, "S4", "agreement", "StochasticAndFilterDuplicatesSearcher.get_config records the configuration it returns", f, call, "")
     for sub in P.all_subclasses(c):
         if "get_config" in sub.methods and "_get_config" not in sub.methods:
             m = sub.methods["get_config"]
@@ -246,17 +249,31 @@ def s4(ctx, rep):
                     f"{sub.name} overrides get_config and bypasses the exclusion-list bookkeeping")
     s = P.func("syne_tune.optimizer.schedulers.searchers.searcher_base.sample_random_configuration")
     cs = cfg_of(s)
-    rvn = [U(r.value) for r in returns_of(s)]
-    rvn = rvn[0] if len(rvn) == 1 else "?"
-    asg = [n for n in cs.nodes if n.kind == "stmt" and isinstance(n.ast, ast.Assign) and U(n.ast.targets[0]) == rvn and U(n.ast.value) != "None"]
-    ok = len(asg) == 1
-    if ok:
-        at = ctx.facts(s).at(asg[0].id)
-        cand = U(asg[0].ast.value)
-        # (no exclusion list given) or (not exclusion_list.contains(candidate))
-        ok = any(a[0] == "or" and any(any(x[0] == "truth" and x[2] is False and f"contains({cand})" in x[1] for x in d) for d in a[1])
-                 and any(any(x[0] == "truth" and x[2] is True and any("exclusion_list is None" in U(dd) for dd in local_defs(s, x[1]) if not isinstance(dd, tuple))
-                             for x in d) for d in a[1]) for a in at)
+    # every place a freshly drawn configuration becomes the result (stored in the returned variable, or returned directly)
+    # is dominated by "no exclusion list given" or "the exclusion list does not contain it"
+    drawn = set(vars_assigned_from(s, lambda v: isinstance(v, ast.Call) and fn_name(v) == "random_config"))
+    if not drawn:
+        raise AnchorError("sample_random_configuration: no variable assigned from random_config found")
+    sites = [n for n in cs.nodes if n.kind in ("stmt", "return") and isinstance(n.ast, (ast.Assign, ast.Return)) and n.ast.value is not None
+             and U(n.ast.value) in drawn]
+    if not sites:
+        raise AnchorError("sample_random_configuration: the drawn configuration never becomes the result")
+
+    def _absent(x):
+        return x[0] == "truth" and x[2] is True and (
+            "exclusion_list is None" in x[1]
+            or any("exclusion_list is None" in U(dd) for dd in local_defs(s, x[1]) if not isinstance(dd, tuple)))
+
+    def _fresh(x, cand):
+        return x[0] == "truth" and x[2] is False and f"contains({cand})" in x[1]
+
+    ok = True
+    for n in sites:
+        cand = U(n.ast.value)
+        at = ctx.facts(s).at(n.id)
+        good = any(_absent(a) or _fresh(a, cand) for a in at) or any(
+            a[0] == "or" and all(any(_absent(x) or _fresh(x, cand) for x in d) for d in a[1]) for a in at)
+        ok = ok and good
     rep.put(ok, "S4", "guarded_by", "sample_random_configuration returns only a configuration the exclusion list does not contain", s, None, "",
             "random sampling can return an excluded configuration")
     b = P.func("syne_tune.optimizer.schedulers.searchers.bayesopt.tuning_algorithms.bo_algorithm._pick_from_locally_optimized")
@@ -266,22 +283,35 @@ def s4(ctx, rep):
         raise AnchorError("_pick_from_locally_optimized: loop over (original, optimised) candidates not found")
     orig, opt = U(loop[0].target.elts[0]), U(loop[0].target.elts[1])
     exl = var_from_call(b, "copy")
-    dupv = {}
-    for nm in {x.id for x in ast.walk(b.node) if isinstance(x, ast.Name)}:
-        for d in local_defs(b, nm):
-            if not isinstance(d, tuple) and isinstance(d, ast.Call) and fn_name(d) == "contains" and "duplicate_detector" in U(d.func.value) and len(d.args) == 2:
-                dupv[U(argn(d, 1))] = (nm, U(argn(d, 0)))
+    def _is_dup_test(e, cand):
+        return isinstance(e, ast.Call) and fn_name(e) == "contains" and "duplicate_detector" in U(e.func.value) and \
+            argn(e, 0) is not None and argn(e, 1) is not None and U(argn(e, 0)) == exl and U(argn(e, 1)) == cand
+
+    def _dup(at, cand, truth):
+        """the atoms say: the duplicate test of `cand` against the running exclusion list came out `truth`"""
+        for x in at:
+            if x[0] != "truth" or x[2] is not truth:
+                continue
+            try:
+                e = ast.parse(x[1], mode="eval").body
+            except SyntaxError:
+                continue
+            if _is_dup_test(e, cand):
+                return True
+            if isinstance(e, ast.Name) and any(not isinstance(d, tuple) and _is_dup_test(d, cand) for d in local_defs(b, e.id)):
+                return True
+        return False
     appc = [x for x in walk_shallow(b.node) if isinstance(x, ast.Call) and fn_name(x) == "append"]
     insv = U(argn(appc[0], 0)) if appc else "?"
     ins = [n for n in cb.nodes if n.kind == "stmt" and isinstance(n.ast, ast.Assign) and U(n.ast.targets[0]) == insv and U(n.ast.value) != "None"]
-    ok = len(ins) == 2 and opt in dupv and orig in dupv and dupv[opt][1] == exl and dupv[orig][1] == exl
+    ok = len(ins) == 2 and exl is not None
     for n in ins:
         at = ctx.facts(b).at(n.id)
         v = U(n.ast.value)
         if v == opt:
-            ok = ok and ("truth", dupv[opt][0], False) in at
+            ok = ok and _dup(at, opt, False)
         elif v == orig:
-            ok = ok and ("truth", dupv[orig][0], False) in at and ("truth", dupv[opt][0], True) in at
+            ok = ok and _dup(at, orig, False) and _dup(at, opt, True)
         else:
             ok = False
     rep.put(ok, "S4", "guarded_by", "_pick_from_locally_optimized inserts the optimised candidate only if new, else the original only if new", b, None, "")
